@@ -134,7 +134,7 @@ func genTok(t *rapid.T, label, how string, thirdOK bool) TokSpec {
 		kinds = []string{"garbage"}
 	}
 	s.Kind = rapid.SampledFrom(kinds).Draw(t, label+"kind")
-	s.User = rapid.SampledFrom(vkit.UserIDs).Draw(t, label+"user")
+	s.User = rapid.SampledFrom(vkit.AllUserIDs).Draw(t, label+"user")
 	s.Owner = rapid.SampledFrom([]string{"self", "other"}).Draw(t, label+"owner")
 	s.State = "live"
 	switch s.Kind {
@@ -266,7 +266,7 @@ func genCase(t *rapid.T) Case {
 		} else {
 			c.Policy.VerifyThird = false
 		}
-		tk := TokSpec{Kind: "third", State: "live", Owner: "other", User: rapid.SampledFrom(vkit.UserIDs).Draw(t, "tuser"), Declared: rapid.SampledFrom([]string{"access", "jwt", "id", "refresh"}).Draw(t, "tdecl")}
+		tk := TokSpec{Kind: "third", State: "live", Owner: "other", User: rapid.SampledFrom(vkit.AllUserIDs).Draw(t, "tuser"), Declared: rapid.SampledFrom([]string{"access", "jwt", "id", "refresh"}).Draw(t, "tdecl")}
 		if c.Actor != nil && rapid.Bool().Draw(t, "onactor") {
 			c.Actor = &tk
 		} else {
